@@ -180,6 +180,11 @@ impl DataType for Data {
                 return Err(StoreError::DirUnderFile);
             }
         }
+        // The reverse: the path must not be an ancestor of a tracked path, or
+        // it would have to be a file and a directory at the same time.
+        if items.keys().any(|key| key != path && key.starts_with(path)) {
+            return Err(StoreError::DirUnderFile);
+        }
 
         Ok(())
     }
@@ -320,6 +325,8 @@ impl<T: DataType> Store<T> {
     /// 2. The path is absolute.
     /// 3. Any of the path's ancestors is already tracked in the store, implying
     ///    the path to be nested under a file.
+    /// 4. The path is an ancestor of a path already tracked in the store, implying
+    ///    a tracked path to be nested under a file.
     ///
     /// In an images store, returns an [`StoreError`] if:
     /// 1. The path is empty.
